@@ -22,7 +22,7 @@ RULE = (
     "scripted runs with gradient requests; samples come from the inject sampler (hash design with amplitude from "
     "{1e-3,0.1,1,5,50}, or identity/pm designs), magnitudes absolute (scalar or per variable) or relative (fraction of "
     "the bound range, finite bounds), boundary types scalar or per variable over {NONE,TRUNCATE_BOTH,MIRROR_BOTH}, bounds "
-    "finite/infinite/mixed, masks, variable scale/offset transforms in 35% of runs, 1-2 inject samplers on disjoint "
+    "finite/infinite/mixed, 30% of the samplers keep (and re-issue) the arrays they returned, masks, variable scale/offset transforms in 35% of runs, 1-2 inject samplers on disjoint "
     "variable sets. Non-trivial = at least one perturbed vector compared and some perturbation left the bounds; "
     "distinct = coarse scenario key + boundary types + amplitude."
 )
@@ -34,7 +34,7 @@ COMPONENTS = {
     "real": ["_perturb_variables / _apply_bounds", "GradientConfig.fix_perturbations", "VariableScaler", "EnsembleEvaluator"],
     "stub": ["sim/inject sampler (chooses every sample)", "SimEvaluator", "sim/scripted optimizer"],
 }
-PROBES = ["vectors_compared", "left_bounds", "none_outside_bounds", "truncated", "mirrored_single", "mirror_multi_width",
+PROBES = ["retaining_sampler", "vectors_compared", "left_bounds", "none_outside_bounds", "truncated", "mirrored_single", "mirror_multi_width",
           "relative_magnitude", "infinite_bound_side", "evaluator_rows_compared", "two_samplers", "with_variable_transform"]
 
 
@@ -50,6 +50,9 @@ def generate(seed: int, index: int, tier: str) -> dict:
     design = rng.choice(["hash", "hash", "hash", "identity", "pm"])
     cfg["samplers"] = [{"method": "sim/inject", "options": {"design": design, "sseed": rng.getrandbits(24), "amp": amp},
                         "shared": rng.random() < 0.4}]
+    if rng.random() < 0.3:
+        # a sampler that keeps (and, for call-independent designs, hands out again) the arrays it returned
+        cfg["samplers"][0]["options"]["retain"] = True
     if nv > 1 and rng.random() < 0.3:
         cfg["samplers"].append({"method": "sim/inject", "options": {"design": "hash", "sseed": rng.getrandbits(24), "amp": amp},
                                 "shared": rng.random() < 0.4})
@@ -91,6 +94,7 @@ def _bcast(v, n, dtype=float):
 
 
 def execute(scn: dict) -> dict:
+    backend.sweep_retained()
     ctx = harness.run_scenario(scn)
     viol: list[dict] = []
     probes: dict[str, int] = {}
@@ -98,6 +102,12 @@ def execute(scn: dict) -> dict:
     def probe(name, n=1):
         probes[name] = probes.get(name, 0) + n
 
+    retaining = any((s.get("options") or {}).get("retain") for s in scn["configs"][0]["samplers"])
+    tampered = backend.sweep_retained()
+    if retaining:
+        probe("retaining_sampler")
+    # (a modified array is only held against the library through its consequence: a re-issued array makes the next
+    # perturbations differ from current + magnitude * sample, which the comparison below reports)
     compared = 0
     left = 0
     grad_no: dict[int, int] = {}
@@ -199,7 +209,7 @@ def execute(scn: dict) -> dict:
         "evals": len(ctx.evaluator.calls),
         "events": len(ctx.events),
         "stratum": scn.get("stratum"),
-        "summary": {"exits": oracles.exits_summary(ctx), "compared": compared, "left_bounds": left},
+        "summary": {"exits": oracles.exits_summary(ctx), "compared": compared, "left_bounds": left, "sampler_arrays_modified": len(tampered)},
     }
 
 
